@@ -256,7 +256,7 @@ func (c *Ctx) upgradeGate(which, pfx string) {
 		c.CheckRets(which, pfx+"/tm/upgrade-module", rr, NilErr(e), 1, nil,
 			Req{Name: "strictly-greater-height", Any: all("T(call:$clientT.Height.GT(field:LatestHeight(esc#*), field:LatestHeight(" + stored + ")))")})
 		c.Check(which, pfx+"/tm/upgrade-module/call", c.Calls(rr, tm+".ClientState.VerifyUpgradeAndUpdateState"), 1, nil, nil,
-			Req{Name: "compared-state-is-the-one-applied", Args: map[int]string{0: "~or(" + stored + ", deref(" + stored + "))", 4: "addr#*"}, Any: all("T(call:$clientT.Height.GT(field:LatestHeight(esc#*), field:LatestHeight(" + stored + ")))")})
+			Req{Name: "compared-state-is-the-one-applied", Args: map[int]string{0: "~or(" + stored + ", deref(" + stored + "))", 4: "ref(?new)"}, Any: all("T(call:$clientT.Height.GT(field:LatestHeight(?new), field:LatestHeight(" + stored + ")))")})
 	}
 }
 
